@@ -36,6 +36,10 @@ CHECKS = {
          'PutIndependence is checked by TLC; lists of 2 and 3 arguments in every order are run; the state must be PutFold\'s, exit 0 iff no failure, stderr names each failed argument.', '5 C16'),
  'C18': ('cmdspec', 'TLC-generated put transitions over link kinds x every spelling, plus simulated round trips',
          'Arguments that are links / dangling links are trashed under every spelling incl. trailing slashes; the payload must be the link itself, targets untouched, one rename; simulated histories restore them.', '5 C18'),
+ 'C03': ('functions', 'TLC-checked codec laws (TrashInfo.tla) + TLC evaluation of WellFormed / Meaning on bytes written and read back by the real commands',
+         'The codec laws are checked exhaustively by TLC over a 16-byte alphabet; real trash-put writes .trashinfo files for random byte-string locations (every byte 1-255 except /, long names, deep paths, all alphabet paths) and TLC evaluates WellFormed on the written bytes; what trash-list / trash-restore / trash-rm show for those files is checked by TLC against Meaning.', '5 C03'),
+ 'C20': ('functions', 'four-way differential of the readers on generated foreign .trashinfo contents, judged by TLC against Meaning / Expired / RmMatches',
+         'Foreign contents from line templates are planted in every kind of trash directory; the path/date trash-list shows, the path/date trash-restore shows, trash-rm on the exact / one-byte-different path and trash-empty DAYS at the date boundary are observed on the real commands and each observation is judged by TLC evaluating the TLA+ operators on the same bytes. One known finding (relative Path in the home trash).', '5 C20'),
  'C19': ('cmdspec', 'TLC invariant JunkIsolation + transition tests of the four readers with malformed neighbours',
          'JunkIsolation (effect on entries = effect with the malformed ones removed) is a TLC invariant; the four real reading commands are run on every subset of malformed neighbours under a permuted directory order and must reach the specification state.', '5 C19'),
 }
